@@ -272,6 +272,12 @@ def run(ctx):
                     if via == "wallet.by_path" and base["depth"] != 0:
                         via = "derive_path"
                     c = dict(base, side=side, index=idx, IL=il, IR=gen.rbytes(rnd, 32), ftag=ftag, via=via)
+                    if rnd.random() < 0.2:
+                        # a parent at the LAST representable depth (its child's depth does not fit a byte any more): an invalid
+                        # child must be reported here like everywhere else (no control group at this depth)
+                        c.update(depth=255, pindex=c["pindex"] or 1, pfp=c["pfp"] if c["depth"] else b"\x01\x02\x03\x04", ktag=c["ktag"] + "|depth255")
+                        if c["via"] == "wallet.by_path":
+                            c["via"] = "derive_path"
                     judge_fault_ckd(ctx, c)
                 for ftag, il in valid_ILs(rnd, k):
                     via = rnd.choice(ENTRY_POINTS)
